@@ -1289,7 +1289,7 @@ class Canonicalizer:
         return False
 
 
-def unroll_literal_loops(fn: ast.FunctionDef, max_items: int = 6) -> ast.FunctionDef:
+def unroll_literal_loops(fn: ast.FunctionDef, max_items: int = 6, names_ok: bool = False) -> ast.FunctionDef:
     """a copy of `fn` in which every `for <targets> in (<literal>, <literal>, ...)` over a short tuple/list of constants (or of tuples of constants)
     is replaced by its iterations in sequence, the targets substituted — a table-driven loop and its spelled-out form read the same.
     Loops containing break/continue are left alone.  Used on demand by rules whose clause is about the sequence of iterations."""
@@ -1297,7 +1297,33 @@ def unroll_literal_loops(fn: ast.FunctionDef, max_items: int = 6) -> ast.Functio
 
     def const(e):
         return isinstance(e, ast.Constant) or (isinstance(e, (ast.Tuple, ast.List)) and all(const(x) for x in e.elts)) or \
-            (isinstance(e, ast.Attribute) and isinstance(e.value, ast.Name) and e.value.id == "Op")
+            (isinstance(e, ast.Attribute) and isinstance(e.value, ast.Name) and e.value.id == "Op") or (names_ok and isinstance(e, ast.Name))
+
+    def table_of(name, loop):
+        """names_ok: `rows = ((...), (...))` assigned once, not otherwise stored, and the row names not rebound inside the loop"""
+        defs = [n for n in _walk_no_nested(new) if isinstance(n, ast.Assign) and len(n.targets) == 1 and isinstance(n.targets[0], ast.Name) and n.targets[0].id == name]
+        stores = [n for n in _walk_no_nested(new) if isinstance(n, ast.Name) and n.id == name and isinstance(n.ctx, (ast.Store, ast.Del))]
+        if len(defs) != 1 or len(stores) != 1 or not isinstance(defs[0].value, (ast.Tuple, ast.List)):
+            return None
+        used = {x.id for x in ast.walk(defs[0].value) if isinstance(x, ast.Name)}
+        rebound = {x.id for x in ast.walk(loop) if isinstance(x, ast.Name) and isinstance(x.ctx, (ast.Store, ast.Del))}
+        return defs[0].value if not (used & rebound) else None
+
+    def decontinue(stmts):
+        """`if c: continue; REST` -> `if not c: REST` (only this top-level shape)"""
+        out = []
+        for i, st_ in enumerate(stmts):
+            if isinstance(st_, ast.If) and not st_.orelse and len(st_.body) == 1 and isinstance(st_.body[0], ast.Continue):
+                rest = decontinue(list(stmts[i + 1:]))
+                if rest is None:
+                    return None
+                if rest:
+                    out.append(ast.copy_location(ast.If(test=ast.UnaryOp(op=ast.Not(), operand=st_.test), body=rest, orelse=[]), st_))
+                return out
+            if any(isinstance(n, (ast.Continue, ast.Break)) for n in _walk_no_nested(st_)) and not isinstance(st_, (ast.For, ast.While)):
+                return None
+            out.append(st_)
+        return out
 
     def bind(t, v, out):
         if isinstance(t, ast.Name):
@@ -1313,10 +1339,15 @@ def unroll_literal_loops(fn: ast.FunctionDef, max_items: int = 6) -> ast.Functio
         rounds += 1
         for st in [n for n in _walk_no_nested(new) if isinstance(n, ast.For)]:
             it = st.iter
+            if names_ok and isinstance(it, ast.Name):
+                it = table_of(it.id, st) or it
             if not isinstance(it, (ast.Tuple, ast.List)) or not it.elts or len(it.elts) > max_items or not all(const(e) for e in it.elts) or st.orelse:
                 continue
+            body = list(st.body)
             if any(isinstance(n, (ast.Break, ast.Continue)) for n in _walk_no_nested(st) if n is not st):
-                continue
+                body = decontinue(body) if names_ok else None
+                if body is None:
+                    continue
             seq = []
             ok = True
             for e in it.elts:
@@ -1324,7 +1355,7 @@ def unroll_literal_loops(fn: ast.FunctionDef, max_items: int = 6) -> ast.Functio
                 if not bind(st.target, e, m):
                     ok = False
                     break
-                for b in st.body:
+                for b in body:
                     seq.append(_Subst(m).visit(clone(b)))
             if not ok:
                 continue
